@@ -642,7 +642,7 @@ package generator
 //@   assigns nothing
 
 //@ func (*schemaGenerator).generateType@arms
-//@   props C08 C07 C03 C02 C10
+//@   props C08 C07 C03 C02 C10 C01
 //@   option inline (*schemaGenerator).determineTypeName PrimitiveTypeFromJSONSchemaType getMinIntType adjustForSignedBounds adjustForUnsignedBounds NormalizeBounds
 //@   option shape-zero t. scope.
 //@   option noframe
@@ -650,9 +650,10 @@ package generator
 //@   shape t = new
 //@   shape t.Enum = nil | enumvals(string)
 //@   shape t.Ref = "" | "#/$defs/X"
-//@   shape t.Format = ""
+//@   shape t.Format = "" | "date" | "date-time" | "ipv4"
 //@   shape t.Type = strs() | strs(string) | strs(array) | strs(object) | strs(integer,null)
 //@   shape t.Items = nil | new
+//@   ensures [C01] format-types-bring-their-import: t.Enum == nil && t.Ref == "" && len(t.Type) == 1 && t.Type[0] == "string" && result1 == nil ==> (t.Format == "date" ==> imports_have(g.output.file.Package.Imports, "github.com/atombender/go-jsonschema/pkg/types")) && (t.Format == "date-time" ==> imports_have(g.output.file.Package.Imports, "time")) && (t.Format == "ipv4" ==> imports_have(g.output.file.Package.Imports, "net/netip"))
 //@   ensures [C08] enum-children-become-enum-types: t.Enum != nil && result1 == nil ==> result0 == call_result("(*schemaGenerator).generateEnumType", 0)
 //@   ensures [C10] refs-are-followed: t.Enum == nil && t.Ref != "" && result1 == nil ==> result0 == call_result("(*schemaGenerator).generateReferencedType", 0)
 //@   ensures [C07,C03] array-arm: t.Enum == nil && t.Ref == "" && len(t.Type) == 1 && t.Type[0] == "array" && result1 == nil ==> dyn(result0) == "codegen.ArrayType" && t.Items != nil
